@@ -1,8 +1,9 @@
 (* Extraction of the executable models. ExtrOcamlBasic only: Z/positive/nat stay inductive. *)
-From MV Require Import Base.MvBytes Num.NumModel Json.JsonModel Json.JsonSpec Dispatch.DispatchModel.
+From MV Require Import Base.MvBytes Num.NumModel Json.JsonModel Json.JsonSpec Dispatch.DispatchModel DataUri.DataUriModel.
 Require Extraction.
 Require Import ExtrOcamlBasic.
 Extraction Language OCaml.
 Separate Extraction number0 decimal0 valid_number valid_decimal
   json_minify_events events_of
-  reg_step reg_init served match_q mediatype.
+  reg_step reg_init served match_q mediatype
+  needs_escape b64_encode datauri_encode mediatype_min.
